@@ -46,12 +46,34 @@ func proofSigSet(m map[string]gcrypto.CommonMessageSignatureProof) map[string]bo
 	return out
 }
 
+// notePersisted records what the round store holds at a quiescent point ("previously persisted" in C10's words).
+func (o *oracles) notePersisted(sn snap) {
+	if o.everPV == nil {
+		o.everPV, o.everPC = map[[2]uint64]map[string]bool{}, map[[2]uint64]map[string]bool{}
+	}
+	for hr, rs := range sn.rounds {
+		for k := range sigSet(rs.prevotes.BlockSignatures) {
+			if o.everPV[hr] == nil {
+				o.everPV[hr] = map[string]bool{}
+			}
+			o.everPV[hr][k] = true
+		}
+		for k := range sigSet(rs.precommits.BlockSignatures) {
+			if o.everPC[hr] == nil {
+				o.everPC[hr] = map[string]bool{}
+			}
+			o.everPC[hr][k] = true
+		}
+	}
+}
+
 // afterRestart checks what C10 promises about the restarted node against the durable state it started from.
 func (o *oracles) afterRestart(durable snap) {
 	if !o.on["C10"] {
 		return
 	}
 	s := o.s
+	preStop := o.prevSnap // the last quiescent point before the stop
 	now := s.snapshot()
 	o.res.Count("restarts_checked", 1)
 	if !now.ok {
@@ -93,6 +115,32 @@ func (o *oracles) afterRestart(durable snap) {
 			if !have[k] {
 				o.violate("C10", "persisted-precommit-missing-after-restart:"+where, fmt.Sprintf("%s %d/%d lacks a precommit signature that the round store holds", where, v.Height, v.Round))
 				break
+			}
+		}
+		// ... and so is every vote the running process still held before the stop and had persisted at an earlier
+		// quiescent point of this history: a later write that silently took it out of the store again loses it here.
+		// (A vote the process itself had dropped from the round before the stop is not lost by the restart.)
+		hr := [2]uint64{v.Height, uint64(v.Round)}
+		var pre *tmconsensus.VersionedRoundView
+		for _, pv := range []*tmconsensus.VersionedRoundView{&preStop.voting, &preStop.committing} {
+			if preStop.ok && pv.Height == v.Height && pv.Round == v.Round {
+				pre = pv
+			}
+		}
+		if pre != nil {
+			have = proofSigSet(v.PrevoteProofs)
+			for k := range proofSigSet(pre.PrevoteProofs) {
+				if o.everPV[hr][k] && !have[k] {
+					o.violate("C10", "earlier-persisted-prevote-missing-after-restart:"+where, fmt.Sprintf("%s %d/%d lacks a prevote signature (target %s) that the process held before the stop and that the round store held at an earlier point of this history", where, v.Height, v.Round, h8([]byte(strings.SplitN(k, "|", 2)[0]))))
+					break
+				}
+			}
+			have = proofSigSet(v.PrecommitProofs)
+			for k := range proofSigSet(pre.PrecommitProofs) {
+				if o.everPC[hr][k] && !have[k] {
+					o.violate("C10", "earlier-persisted-precommit-missing-after-restart:"+where, fmt.Sprintf("%s %d/%d lacks a precommit signature (target %s) that the process held before the stop and that the round store held at an earlier point of this history", where, v.Height, v.Round, h8([]byte(strings.SplitN(k, "|", 2)[0]))))
+					break
+				}
 			}
 		}
 		for _, ph := range rs.phs {
